@@ -924,11 +924,12 @@ func (s *SSEServer) processRequestAsync(ctx context.Context, request *JSONRPCReq
 			return
 		}
 		event := formatSSEEvent("message", fullResponseData)
+		// Every request gets its answer: wait for room in the queue instead of dropping the response.
 		select {
 		case session.eventQueue <- event:
 			// Successfully queued
-		default:
-			s.logger.Errorf("Failed to queue error response: event queue full for session %s", session.sessionID)
+		case <-session.done:
+			s.logger.Debugf("Session closed, cannot send error response: %s", session.sessionID)
 		}
 		return
 	}
@@ -1094,8 +1095,6 @@ func (s *SSEServer) handleRequestError(err error, requestID interface{}, session
 		// Error response queued successfully.
 	case <-session.done:
 		s.logger.Debugf("Session closed, cannot send error response: %s", session.sessionID)
-	default:
-		s.logger.Errorf("Failed to queue error response: event queue full for session %s", session.sessionID)
 	}
 }
 
@@ -1124,8 +1123,6 @@ func (s *SSEServer) sendSuccessResponse(requestID interface{}, result interface{
 		// Response queued successfully.
 	case <-session.done:
 		s.logger.Debugf("Session closed, cannot send response: %s", session.sessionID)
-	default:
-		s.logger.Errorf("Failed to queue response: event queue full for session %s", session.sessionID)
 	}
 }
 
